@@ -82,6 +82,7 @@ type Term struct {
 	a, b, c *Term
 	val     uint64
 	name    string
+	kz, ko  uint64 // known-zero / known-one bits (bit-vector terms)
 }
 
 func (t *Term) ID() int32 { return t.id }
@@ -115,11 +116,68 @@ func intern(op Op, w int, a, b, c *Term, val uint64, name string) *Term {
 	if t == nil {
 		t = &Term{id: termCount, op: op, w: uint8(w), a: a, b: b, c: c, val: val, name: name}
 		termCount++
+		t.knownBits()
 		termTab[k] = t
 		termByID = append(termByID, t)
 	}
 	termMu.Unlock()
+	if w > 0 && op != OpConst && t.kz|t.ko == mask(w) {
+		return mkConst(w, t.ko)
+	}
+	if w == 0 && op == OpEq && a.w > 0 && b.op == OpConst {
+		// a == const decided by known bits
+		if a.ko&^b.val != 0 || a.kz&b.val != 0 {
+			return tFalse
+		}
+	}
 	return t
+}
+
+// knownBits computes which bits of a bit-vector term are fixed regardless of the variables.
+func (t *Term) knownBits() {
+	w := int(t.w)
+	if w == 0 {
+		return
+	}
+	m := mask(w)
+	switch t.op {
+	case OpConst:
+		t.ko, t.kz = t.val&m, ^t.val&m
+	case OpBAnd:
+		t.ko = t.a.ko & t.b.ko
+		t.kz = (t.a.kz | t.b.kz) & m
+	case OpBOr:
+		t.ko = (t.a.ko | t.b.ko) & m
+		t.kz = t.a.kz & t.b.kz
+	case OpBXor:
+		t.ko = (t.a.ko&t.b.kz | t.a.kz&t.b.ko) & m
+		t.kz = (t.a.ko&t.b.ko | t.a.kz&t.b.kz) & m
+	case OpBNot:
+		t.ko, t.kz = t.a.kz, t.a.ko
+	case OpZExt:
+		t.ko = t.a.ko
+		t.kz = (t.a.kz | (m &^ mask(int(t.a.w)))) & m
+	case OpExtract:
+		hi, lo := int(t.val>>8), int(t.val&0xff)
+		mm := mask(hi - lo + 1)
+		t.ko = (t.a.ko >> uint(lo)) & mm
+		t.kz = (t.a.kz >> uint(lo)) & mm
+	case OpShl:
+		if t.b.op == OpConst && t.b.val < uint64(w) {
+			sh := uint(t.b.val)
+			t.ko = (t.a.ko << sh) & m
+			t.kz = ((t.a.kz << sh) | mask(int(sh))) & m
+		}
+	case OpLShr:
+		if t.b.op == OpConst && t.b.val < uint64(w) {
+			sh := uint(t.b.val)
+			t.ko = t.a.ko >> sh
+			t.kz = ((t.a.kz >> sh) | (m &^ (m >> sh))) & m
+		}
+	case OpIte:
+		t.ko = t.b.ko & t.c.ko
+		t.kz = t.b.kz & t.c.kz
+	}
 }
 
 func mask(w int) uint64 {
@@ -137,10 +195,12 @@ func sext64(v uint64, w int) int64 {
 	return int64(v<<sh) >> sh
 }
 
-var (
-	tTrue  = intern(OpConst, 0, nil, nil, nil, 1, "")
+var tTrue, tFalse *Term
+
+func init() {
+	tTrue = intern(OpConst, 0, nil, nil, nil, 1, "")
 	tFalse = intern(OpConst, 0, nil, nil, nil, 0, "")
-)
+}
 
 func mkBool(b bool) *Term {
 	if b {
